@@ -310,6 +310,24 @@ func c05Corpus(thorough bool) []c05Prog {
 	}
 	nE := [][]string{{"e(1,2)", "e(2,3)", "u(1)", "u(3)"}, {"e(1,1)", "e(1,2)", "e(3,1)", "u(2)"}}
 	addPool(n, nIdx, nE, []string{"e", "u", "p", "q", "w", "w2"}, "N")
+	// mixed predicates: inline facts of predicates that also have rules are clauses like any other and
+	// take part in the clause-order dimension (before, between and after the rules)
+	mp := gen.PoolM()
+	var mIdx [][]int
+	for _, sub := range gen.Subsets(len(mp.Rules), 4, nil) {
+		facts, rules := 0, 0
+		for _, i := range sub {
+			if gen.IsFact(mp.Rules[i]) {
+				facts++
+			} else {
+				rules++
+			}
+		}
+		if len(sub) >= 3 && facts >= 1 && rules >= 2 && (thorough || (sub[0]+2*sub[1]+3*sub[2]+5*len(sub))%4 == 0) {
+			mIdx = append(mIdx, sub)
+		}
+	}
+	addPool(mp, mIdx, [][]string{{"e(1,2)", "e(2,3)", "e(3,1)"}, {"e(1,1)", "e(1,2)", "e(2,7)", "e(8,3)"}}, []string{"e", "p", "q", "w", "v"}, "M")
 	// aggregation
 	ar := gen.AggRules([]string{"fn:count()", "fn:sum(V)", "fn:collect_distinct(V)", "fn:max(V)"})
 	for i := 0; i < len(ar); i++ {
@@ -440,6 +458,6 @@ func c05(r *rt.Run) {
 	})
 	_ = oracle.Key
 	c05MapOrder(r)
-	r.Finish("base programs: 4-rule recursive programs of pool G, negation pool N, pairs of aggregating rules (pool A), temporal chains (pool T); for each: every clause order (<=4 clauses: all permutations), every fact order (rotations, reversal, transpositions), 2 consistent variable renamings, 2 predicate renamings, package wrapping, 8 store kinds, WithDeterministicOrder, and repeated runs; map iteration order: 4 global modes + every single deviation for a sub-corpus; " +
+	r.Finish("base programs: 4-rule recursive programs of pool G, negation pool N, 3-4-clause programs of pool M (predicates with inline facts and rules), pairs of aggregating rules (pool A), temporal chains (pool T); for each: every clause order (<=4 clauses: all permutations), every fact order (rotations, reversal, transpositions), 2 consistent variable renamings, 2 predicate renamings, package wrapping, 8 store kinds, WithDeterministicOrder, and repeated runs; map iteration order: 4 global modes + every single deviation for a sub-corpus; " +
 		"all variants must produce the same canonical fact set; non-trivial = base programs that derive facts")
 }
